@@ -53,11 +53,12 @@ ActiveAt(i, k)  == \E g \in 1..nexec : LiveAt(i, g, k)
 InitsBefore(k)  == Cardinality({j \in 1..(k - 1) : hist[j].k = "recv" /\ hist[j].t = "init"})
 ClosingAt(k)    == \E j \in 1..(k - 1) : IsOut(j, "close") \/ IsOut(j, "error") \/ IsOut(j, "none")
 
-D1 == /\ \A k \in 1..N : (IsOut(k, "next") \/ hist[k].k = "exec") => AckedAt(k)
-      /\ Cardinality({k \in 1..N : IsOut(k, "ack")}) <= 1
-      /\ \A k \in 1..N : IsOut(k, "ack") => \E j \in 1..(k - 1) : hist[j].k = "initres" /\ hist[j].n = 1
-D2 == \A k \in 1..N : IsOut(k, "next") => LiveAt(hist[k].id, hist[k].n, k)
-D3 == \A k \in 1..N : IsOut(k, "complete") => RunningAt(hist[k].id, k)
+\* each clause as a statement about position k of the history
+D1At(k) == /\ (IsOut(k, "next") \/ hist[k].k = "exec") => AckedAt(k)
+           /\ IsOut(k, "ack") => /\ ~AckedAt(k)                                  \* a single acknowledgement
+                                  /\ \E j \in 1..(k - 1) : hist[j].k = "initres" /\ hist[j].n = 1
+D2At(k) == IsOut(k, "next") => LiveAt(hist[k].id, hist[k].n, k)
+D3At(k) == IsOut(k, "complete") => RunningAt(hist[k].id, k)
 \* the violations of graphql-transport-ws and the code each must be answered with, at once
 ViolationAt(k) ==
   IF hist[k].k # "recv" \/ ClosingAt(k) THEN 0
@@ -66,14 +67,22 @@ ViolationAt(k) ==
          [] hist[k].t = "start" /\ ~AckedAt(k) -> 4401
          [] hist[k].t = "start" /\ AckedAt(k) /\ ActiveAt(hist[k].id, k) -> 4409
          [] OTHER -> 0
-D4 == \A k \in 1..N : ViolationAt(k) # 0 /\ k < N =>
-        IF proto = "GWS" THEN IsOut(k + 1, "close") /\ hist[k + 1].n = ViolationAt(k)
-        ELSE ViolationAt(k) = 4409 \/ IsOut(k + 1, "close") \/ IsOut(k + 1, "error")
-D5 == \A k \in 1..N : /\ IsOut(k, "close") => \A j \in (k + 1)..N : hist[j].k = "out" => hist[j].t \in {"none", "pending"}
-                      /\ IsOut(k, "none") => \A j \in (k + 1)..N : hist[j].k # "out"
+\* position k answers the violation (if any) at position k - 1
+D4At(k) == k > 1 /\ ViolationAt(k - 1) # 0 =>
+             IF proto = "GWS" THEN IsOut(k, "close") /\ hist[k].n = ViolationAt(k - 1)
+             ELSE ViolationAt(k - 1) = 4409 \/ IsOut(k, "close") \/ IsOut(k, "error")
+D5At(k) == hist[k].k = "out" =>
+             /\ (\E j \in 1..(k - 1) : IsOut(j, "close")) => hist[k].t \in {"none", "pending"}
+             /\ ~\E j \in 1..(k - 1) : IsOut(j, "none")
+DAt(k)  == D1At(k) /\ D2At(k) /\ D3At(k) /\ D4At(k) /\ D5At(k)
+D1 == \A k \in 1..N : D1At(k)     D2 == \A k \in 1..N : D2At(k)     D3 == \A k \in 1..N : D3At(k)
+D4 == \A k \in 1..N : D4At(k)     D5 == \A k \in 1..N : D5At(k)
 Decl == D1 /\ D2 /\ D3 /\ D4 /\ D5
+\* The clauses speak about each position relative to the positions before it, so along a behaviour it is
+\* enough to check the positions the last step appended (the prefix was checked in the predecessor state).
+DeclNew == \A k \in (N - Len(log) + 1)..N : DAt(k)
 
 Strict == mon.bad = "" /\ mon.used = {}
-DeclImpliesMonitor == Strict => Decl     \* whatever the clauses reject, the monitor rejects
-IdealSatisfiesDecl == Decl               \* for Dev = {}
+DeclImpliesMonitor == Strict => DeclNew  \* whatever the clauses reject, the monitor rejects
+IdealSatisfiesDecl == DeclNew            \* for Dev = {}: the protocol as written satisfies D1..D5
 =============================================================================
